@@ -30,7 +30,7 @@ theorem Machine.next_valid {m : Machine} {input : List Nat} {c c' : Nat × Nat} 
 comes to a seen crumb) -/
 theorem runCrumbs_le (m : Machine) (input : List Nat) (fuel : Nat) (seen : List (Nat × Nat)) (c : Nat × Nat)
     (hn : seen.Nodup) (hv : ∀ x ∈ seen, x.1 < m.nstates ∧ x.2 ≤ input.length) :
-    (runCrumbs m input fuel seen c).1 + seen.length ≤ m.nstates * (input.length + 1) + 1 := by
+    (runCrumbs m input fuel seen c).passes + seen.length ≤ m.nstates * (input.length + 1) + 1 := by
   have hp := crumbs_pigeonhole _ _ seen hn hv
   induction fuel generalizing seen c with
   | zero => simp only [runCrumbs]; omega
@@ -58,7 +58,7 @@ theorem runCrumbs_le (m : Machine) (input : List Nat) (fuel : Nat) (seen : List 
 theorem runCrumbs_stops (m : Machine) (input : List Nat) (fuel : Nat) (seen : List (Nat × Nat)) (c : Nat × Nat)
     (hn : seen.Nodup) (hv : ∀ x ∈ seen, x.1 < m.nstates ∧ x.2 ≤ input.length)
     (hf : m.nstates * (input.length + 1) + 1 < fuel + seen.length) :
-    (runCrumbs m input fuel seen c).2 ≠ .fuel := by
+    (runCrumbs m input fuel seen c).stop ≠ .fuel := by
   induction fuel generalizing seen c with
   | zero =>
     have := crumbs_pigeonhole _ _ seen hn hv
